@@ -39,6 +39,19 @@ CHECKS = {
              'are classified by independent lexical definitions into must-accept / must-reject / unspecified and compared '
              'with STRICT acceptance, the re-encoded text, TOLERANT verbatim preservation and utils.check_*.',
         note='trusted: python calendar module, reference regular expressions; unspecified band (years<1000, +14MM/-12MM, .5/5., +SI) never reported'),
+    'C19': dict(
+        engine=E3, design_ref='DESIGN.md section 7 C19, section 3.3',
+        technique='stateless model checking of the implementation: real threads under a baton scheduler with a choice point '
+                  'before every library line (sys.monitoring), iterative preemption bounding, result equality with the sequential run '
+                  'plus a frame-condition audit of all process-wide library state',
+        text='136 two- and three-thread harnesses over a corpus of 17 factory / build / parse / encode / validate bodies '
+             '(forced collision on one version, and mixed version/level variants) are executed under every schedule with at '
+             'most 2 preemptions (small x small), 1 preemption (small/medium x medium, 3 threads) and both serial orders '
+             '(large bodies) in the quick tier, ~360,000 complete executions; thorough raises the bounds (3 / 1 at bytecode '
+             'granularity in the shared-state functions / 1 for large bodies at shared-touching lines). Every thread must observe '
+             'exactly what the same call observes alone, and the fingerprint of every module global, module-level container and '
+             'class-level data attribute of the library (and a digest of the tables) must be unchanged after every execution.',
+        note='trusted: CPython (one bytecode is atomic), stdlib internals atomic, import lock; <=3 threads; preemption bounds as stated'),
     'C06': dict(
         engine=E1, design_ref='DESIGN.md section 7 C06',
         technique='bounded-exhaustive enumeration (all strings <= 5/6 over the delimiter/escape alphabet x every textual '
